@@ -145,6 +145,64 @@ func genGraph(r *Rng, kind string, n int) ([]edgeI, int) {
 			}
 			es = append(es, edgeI{a, b})
 		}
+	case "slack":
+		// a backbone path that fixes the number of layers, side chains with fewer nodes than the span they
+		// bridge (so the layering leaves long edges and nodes with in-degree = out-degree that balancing may
+		// move), chains that end in shared sinks, and filler leaves that crowd some layers. The edge list is
+		// shuffled. The node count is chosen here.
+		bl := 4 + r.Intn(4)
+		n = bl
+		for i := 1; i < bl; i++ {
+			es = append(es, edgeI{i - 1, i})
+		}
+		chains := 1 + r.Intn(3)
+		for c := 0; c < chains; c++ {
+			from := r.Intn(bl - 2)
+			to := from + 2 + r.Intn(bl-from-2)
+			if to >= bl {
+				to = bl - 1
+			}
+			k := 1 + r.Intn(to-from) // inner nodes of the side chain, at most span
+			if k > to-from-1 && r.Bool(70) {
+				k = to - from - 1
+			}
+			if k < 1 {
+				k = 1
+			}
+			prev := from
+			for j := 0; j < k; j++ {
+				es = append(es, edgeI{prev, n})
+				prev = n
+				n++
+			}
+			switch r.Intn(3) {
+			case 0:
+				es = append(es, edgeI{prev, to})
+			case 1: // fan out to two backbone nodes
+				es = append(es, edgeI{prev, to})
+				if to+1 < bl {
+					es = append(es, edgeI{prev, to + 1})
+				}
+			default: // own sinks
+				es = append(es, edgeI{prev, n})
+				n++
+				if r.Bool(50) {
+					es = append(es, edgeI{prev, n})
+					n++
+				}
+			}
+		}
+		fill := r.Intn(4)
+		for f := 0; f < fill; f++ {
+			es = append(es, edgeI{r.Intn(n), n})
+			n++
+		}
+		perm := r.Perm(len(es))
+		sh := make([]edgeI, len(es))
+		for i, j := range perm {
+			sh[i] = es[j]
+		}
+		es = sh
 	case "longdag":
 		// chain plus skip edges (long edges)
 		for i := 1; i < n; i++ {
@@ -295,7 +353,7 @@ func genGraph(r *Rng, kind string, n int) ([]edgeI, int) {
 	return es, n
 }
 
-var connectedKinds = []string{"outtree", "intree", "dag", "longdag", "cyclic", "multi", "multidag", "dense", "cycle", "layered"}
+var connectedKinds = []string{"outtree", "intree", "dag", "longdag", "cyclic", "multi", "multidag", "dense", "cycle", "layered", "slack", "slack"}
 
 // makes the edge list a simple graph: no parallel or antiparallel edges, no self loops
 func simplify(es []edgeI) []edgeI {
